@@ -673,6 +673,35 @@ impl<'a> Gen<'a> {
         self.emit(format!("tx u2 {} fm createfarm {} {} {} uusdc {} db{}", funds_str(&funds), lp, cur + 1, cur + 5, aa, tag));
     }
 
+    /// directed scenario for C07 / C11: more farms on one LP token than any default page size (10): the limit is
+    /// raised to 11..13, that many farms are created with identifiers whose byte order differs from creation
+    /// order, a user locks LP, two epochs pass and the user claims (every active farm must pay its share)
+    pub fn op_scenario_many_farms(&mut self) {
+        let Some(lp) = self.some_lp() else { return self.op_provide() };
+        let holders = self.lp_holders(&lp);
+        let Some(u) = holders.first().copied() else { return self.op_provide() };
+        let n = 11 + self.r.below(3);
+        self.emit(format!("tx owner 0 fm config - - - - - {} - - - - -", n));
+        let cur = self.cur_epoch();
+        let tag = self.r.below(1000);
+        for k in 0..n {
+            let aa = 2000 + self.r.below(20_000) as u128;
+            let d = ["uusdc", "uusdt", "udai"][(k % 3) as usize];
+            let asset = coin(aa, d);
+            let funds = self.farm_fee_funds(&asset);
+            let owner = ["u1", "u2"][(k % 2) as usize];
+            // explicit ids mf<tag>_<k> (k = 0..12: "10" sorts before "2"), every fourth farm gets a generated id
+            let id = if k % 4 == 3 { "-".to_string() } else { format!("mf{}_{}", tag, k) };
+            self.emit(format!("tx {} {} fm createfarm {} {} {} {} {} {}", owner, funds_str(&funds), lp, cur + 1, cur + 4 + k % 3, d, aa, id));
+        }
+        let bal = self.run.h.w.balance(u, &lp);
+        self.emit(format!("tx {} 1 {} {} fm createpos mfp{} {} -", u, lp, bal / 9 + 1, tag, DAY));
+        self.emit(format!("advance {}", 2 * DAY * 1_000_000_000));
+        self.emit(format!("tx {} 0 fm claim -", u));
+        self.emit(format!("advance {}", DAY * 1_000_000_000));
+        self.emit(format!("tx {} 0 fm claim -", u));
+    }
+
     /// directed scenario for C11 / C09: move the clock to the instant a farm expires (end of its last
     /// epoch + expiration time), one second / one epoch around it, then run an operation that consults
     /// `is_farm_expired` (farm creation on the same LP token = automatic close; expand; emergency exit)
@@ -805,7 +834,8 @@ pub fn gen_fm_case(r: &mut Rng, id: u64, len: u64, faults: bool, o: &mut Out) {
     for _ in 0..6 { g.op_provide(); }
     // every second case starts with one directed scenario, in rotation, whatever the seed
     if let Some(k) = scen {
-        match k % 8 {
+        match k % 9 {
+            8 => g.op_scenario_many_farms(),
             7 => g.op_scenario_expand_long_farm(),
             0 => g.op_scenario_piecewise_close(),
             1 => g.op_scenario_shared_owner_emergency(),
@@ -836,7 +866,7 @@ pub fn gen_fm_case(r: &mut Rng, id: u64, len: u64, faults: bool, o: &mut Out) {
             38 => g.op_scenario_farm_expiry_boundary(),
             39 => if g.r.chance(1, 3) { g.op_scenario_double_autoclose() } else { g.op_advance() },
             40 => if g.r.chance(1, 2) { g.op_scenario_piecewise_close() } else { g.op_advance() },
-            41 => if g.r.chance(1, 2) { g.op_scenario_close_after_claim() } else { g.op_advance() },
+            41 => match g.r.below(4) { 0 | 1 => g.op_scenario_close_after_claim(), 2 => g.op_scenario_many_farms(), _ => g.op_advance() },
             _ => g.op_advance(),
         }
     }
